@@ -195,3 +195,84 @@ Proof.
     + apply Nat.eqb_eq in Ejj. subst j'. rewrite (nth_error_upd_same _ _ _ _ Ej), Ej. eapply IH; eauto.
     + apply Nat.eqb_neq in Ejj. rewrite nth_error_upd_other by auto. reflexivity.
 Qed.
+
+(* ---- the checker accepts everything the MODEL produces ------------------------------------------------------------------
+   observe builds the observed-case record from the model's own run the way the harness builds it from the
+   implementation's: per step the result code, the values (read through abs) of a selection of handles — the harness
+   selects the written handles, and all handles after the last step; here ANY selection per step — and capacity
+   observations of a selection of slots. *)
+Definition obs_vals (st : cstate) (sel : list nat) : list (nat * vrow) :=
+  flat_map (fun h => match row_of st h with Some r => [(h, abs_row r)] | None => [] end) sel.
+Definition obs_caps (st : cstate) (sel : list (nat * path * nat)) : list (nat * path * nat * nat) :=
+  flat_map (fun x => let '(h, p, j) := x in
+              match opt_bind (row_of st h) (fun r => opt_bind (cget r p) (fun q => nth_error q j)) with
+              | Some s => [(h, p, j, cs_cap s)]
+              | None => []
+              end) sel.
+Fixpoint observe (st : cstate) (p : list op) (sels : list (list nat * list (nat * path * nat))) : list obs :=
+  match p with
+  | [] => []
+  | o :: p' =>
+      let '(st1, c) := cstep pmetric_schema st o in
+      (c, obs_vals st1 (fst (hd ([], []) sels)), obs_caps st1 (snd (hd ([], []) sels))) :: observe st1 p' (tl sels)
+  end.
+
+Lemma vrow_eqb_refl r : vrow_eqb r r = true.
+Proof. now apply vrow_eqb_spec. Qed.
+
+Lemma obs_vals_spec_ok st sel : forallb (check_aval (abs_state st)) (obs_vals st sel) = true.
+Proof.
+  apply forallb_forall. intros [h r] Hin. unfold obs_vals in Hin. apply in_flat_map in Hin. destruct Hin as (h0 & _ & Hin).
+  destruct (row_of st h0) as [r0|] eqn:E; simpl in Hin; [|contradiction]. destruct Hin as [Heq|[]]. inversion Heq; subst.
+  unfold check_aval. simpl. rewrite row_of_abs, E. simpl. apply vrow_eqb_refl.
+Qed.
+Lemma obs_vals_model_ok st sel : forallb (check_val st) (obs_vals st sel) = true.
+Proof.
+  apply forallb_forall. intros [h r] Hin. unfold obs_vals in Hin. apply in_flat_map in Hin. destruct Hin as (h0 & _ & Hin).
+  destruct (row_of st h0) as [r0|] eqn:E; simpl in Hin; [|contradiction]. destruct Hin as [Heq|[]]. inversion Heq; subst.
+  unfold check_val. simpl. rewrite E. apply vrow_eqb_refl.
+Qed.
+Lemma obs_caps_model_ok st sel : forallb (check_cap st) (obs_caps st sel) = true.
+Proof.
+  apply forallb_forall. intros [[[h p] j] c] Hin. unfold obs_caps in Hin. apply in_flat_map in Hin.
+  destruct Hin as ([[h0 p0] j0] & _ & Hin).
+  destruct (opt_bind (row_of st h0) _) as [s|] eqn:E; simpl in Hin; [|contradiction]. destruct Hin as [Heq|[]]. inversion Heq; subst.
+  unfold check_cap. rewrite E. apply Nat.eqb_refl.
+Qed.
+
+(* the pure-semantics checker accepts the model's own observations: for EVERY program, start state and selection *)
+Lemma model_passes_spec p : forall st sels, spec_run (abs_state st) p (observe st p sels) = true.
+Proof.
+  induction p as [|o p IH]; intros st sels; simpl; auto.
+  pose proof (cstep_refines pmetric_schema st o) as R.
+  destruct (cstep pmetric_schema st o) as [st1 c] eqn:E. simpl in R. simpl. rewrite R.
+  rewrite Nat.eqb_refl, obs_vals_spec_ok, IH. reflexivity.
+Qed.
+(* ... and so does the concrete-model checker (trivially: the model against itself), hence check_both *)
+Lemma model_passes_check_run p : forall st sels, check_run st p (observe st p sels) = true.
+Proof.
+  induction p as [|o p IH]; intros st sels; simpl; auto.
+  destruct (cstep pmetric_schema st o) as [st1 c] eqn:E. simpl.
+  rewrite Nat.eqb_refl, obs_vals_model_ok, obs_caps_model_ok, IH. reflexivity.
+Qed.
+
+Lemma spec_verdict_none p : forall st os i, spec_run st p os = true -> spec_verdict_from st p os i = None.
+Proof.
+  induction p as [|o p IH]; intros st os i H; destruct os as [|[[code vals] caps] os]; simpl in *; try discriminate; auto.
+  destruct (astep pmetric_schema st o) as [st1 c]. apply andb_true_iff in H. destruct H as [H H3].
+  apply andb_true_iff in H. destruct H as [H1 H2]. rewrite H1. simpl.
+  assert (F : filter (fun x => negb (check_aval st1 x)) vals = []).
+  { clear - H2. induction vals as [|x vals IHv]; simpl in *; auto. apply andb_true_iff in H2. destruct H2 as [A B].
+    rewrite A. simpl. auto. }
+  rewrite F. apply IH. exact H3.
+Qed.
+
+Theorem model_passes_checker_l p sels :
+  spec_ok (p, observe cstate0 p sels) = true /\ check_both (p, observe cstate0 p sels) = true /\
+  spec_verdict (p, observe cstate0 p sels) = None.
+Proof.
+  assert (S : spec_ok (p, observe cstate0 p sels) = true) by apply (model_passes_spec p cstate0 sels).
+  split; [exact S|]. split.
+  - unfold check_both, check_case. simpl. rewrite (model_passes_check_run p cstate0 sels). exact S.
+  - apply spec_verdict_none. exact S.
+Qed.
